@@ -694,7 +694,7 @@ def run(chk, ctx):
                 'arguments: random subsets / permutations / merge sets (unordered, 1-based where the API is), both settings of mask_corners; '
                 'edge cases: rejected arguments, empty subset, identity permutation, all populations merged, sample size 1 on every axis; '
                 'non-trivial = distinct (operation, #populations, #axes touched, folded, labelled, flag, mask kind)'
-                % ('300 (quick) / 900 (thorough)'))
+                % ('300 (quick) / 1000 (thorough)'))
     chk.unproved = [
         'commutation with projection (marginalize/filter/reorder/combine on untouched axes; project(scramble) = re-deal(project(pool))) is validated numerically on the implementation (L3), not proved',
         'commutation of reorder_pops with folding is validated numerically (L3) (proved: combine_two_pops, marginalize, and the generic statement for any count-preserving mirror-equivariant re-indexing)',
@@ -706,8 +706,8 @@ def run(chk, ctx):
                         'arithmetic does not accumulate into masked cells) are part of the model and checked by K only']
     ctx['chk'] = chk
     dadi = ctx['dadi']
-    cap = 300 if tier == 'quick' else 900
-    rounds = 3 if tier == 'quick' else 14
+    cap = 300 if tier == 'quick' else 1000
+    rounds = 5 if tier == 'quick' else 60
     edge_cases(chk, ctx, rng)
     for rep in range(rounds):
         for d in (1, 2, 3, 4, 5, 6):
